@@ -1173,10 +1173,15 @@ fn alloc_guard_ok(bytes: &[u8]) -> bool {
             while i < bytes.len() && bytes[i].is_ascii_digit() {
                 i += 1;
             }
-            let digits = &bytes[s..i];
-            let sig: Vec<u8> = digits.iter().copied().skip_while(|&d| d == b'0').collect();
-            if sig.len() <= 19 {
-                let v = sig.iter().fold(0u64, |a, &d| a * 10 + (d - b'0') as u64);
+            let mut s = s;
+            while s < i && bytes[s] == b'0' {
+                s += 1;
+            }
+            if i - s <= 19 {
+                let mut v = 0u64;
+                for &d in &bytes[s..i] {
+                    v = v * 10 + (d - b'0') as u64;
+                }
                 if v > 65_536 && v < (1u64 << 60) {
                     return false;
                 }
